@@ -50,7 +50,7 @@ pub enum Reply {
 
 pub fn reply_of_str(s: &str) -> Reply {
     match s {
-        "E" | "ET" | "EI" | "EW" | "EF" | "EG" => Reply::BusErr(s.as_bytes().get(1).copied().unwrap_or(b' ')),
+        "E" | "ET" | "EI" | "EW" | "EF" | "EG" | "ES" | "EB" => Reply::BusErr(s.as_bytes().get(1).copied().unwrap_or(b' ')),
         "N" => Reply::Rep(None),
         _ => Reply::Rep(Some(msg_of_str(s))),
     }
@@ -101,6 +101,9 @@ impl SignBus for ScriptBus {
                     b'W' => Box::new(std::io::Error::new(std::io::ErrorKind::WouldBlock, "scripted would-block")),
                     b'F' => Box::new(flipdot_core::FrameError::from(std::io::Error::new(std::io::ErrorKind::TimedOut, "scripted timeout"))),
                     b'G' => Box::new(flipdot_core::FrameError::from(std::io::Error::new(std::io::ErrorKind::Interrupted, "scripted interrupt"))),
+                    // the bus's own error happens to be a SignError (a bus built on top of another Sign)
+                    b'S' => Box::new(SignError::UnexpectedResponse { expected: "scripted".to_string(), actual: "scripted".to_string() }),
+                    b'B' => Box::new(SignError::Bus { source: Box::new(ScriptError("scripted inner bus error")) }),
                     _ => Box::new(ScriptError("scripted bus error")),
                 })
             }
